@@ -40,14 +40,21 @@ fn classify(vrps: &[Vrp], r: &Route) -> (&'static str, Vec<Vrp>, Vec<Vrp>) {
     (state, covering, matching)
 }
 
+/// VRPs of AS 1 whose max length equals the prefix length are built
+/// without an explicit max length (as from a ROA entry or SLURM assertion
+/// that omits it); all others carry it explicitly.
+fn implicit_max(v: &Vrp) -> bool { v.max == v.len && v.asn == 1 }
+
 fn to_origin(v: &Vrp) -> RouteOrigin {
-    if v.v6 {
-        data::v6(std::net::Ipv6Addr::from(v.bits), v.len, v.max, v.asn)
-    }
-    else {
-        let b = (v.bits as u32).to_be_bytes();
-        data::v4(b[0], b[1], b[2], b[3], v.len, v.max, v.asn)
-    }
+    let addr = if v.v6 { IpAddr::V6(std::net::Ipv6Addr::from(v.bits)) }
+        else { IpAddr::V4(std::net::Ipv4Addr::from(v.bits as u32)) };
+    RouteOrigin::new(
+        rpki::resources::addr::MaxLenPrefix::new(
+            Prefix::new(addr, v.len).unwrap(),
+            if implicit_max(v) { None } else { Some(v.max) }
+        ).unwrap(),
+        Asn::from_u32(v.asn)
+    )
 }
 
 fn to_prefix(r: &Route) -> Prefix {
@@ -350,7 +357,8 @@ pub fn run(ctx: &Ctx) -> Report {
     rep.rule = format!("every VRP set of size <= {max} over a universe of \
         {} VRPs (all prefixes of the depth-{depth} subtree below 10.0.0.0/8 x \
         max-length in {{len, len+1, 32}} x AS in {{1,2}} + 4 IPv6 VRPs incl. \
-        one whose leading bits equal 10/8) x {} routes (0/0, /7, every \
+        one whose leading bits equal 10/8; VRPs of AS 1 with max-length = \
+        prefix length are built without an explicit max-length) x {} routes (0/0, /7, every \
         prefix to depth 3, deeper, /32 hosts, neighbour /8, IPv6; AS 1,2,3) \
         through RouteValidity, the plain and JSON batch RequestList, and \
         (every 16th set) both HTTP validity endpoints via the real \
